@@ -71,6 +71,13 @@ def run_angles(case):
         out.fail('angles:projection-roundtrip', '%s -> projection -> (%.9f, %.9f)' % (desc, bp.lh_v1_horiz_angle, bp.lh_v1_vert_angle))
     if vec.lh_v1_angle_pair != (h, v):
         out.fail('angles:pair', desc)
+    # whichever way a vector was built, its Cartesian form is the unit vector of the same direction
+    for how, obj in (('from_cart(scaled)', bs), ('from_cart', bc), ('from_lh2', back), ('from_projection', bp)):
+        c2 = np.asarray(obj.cart, dtype=np.float64)
+        if abs(float(np.linalg.norm(c2)) - 1.0) > 1e-5:
+            out.fail('angles:cart-norm:' + how.split('(')[0], '%s: |%s.cart| = %r' % (desc, how, float(np.linalg.norm(c2))))
+        elif np.max(np.abs(c2 - ref)) > 2e-5:
+            out.fail('angles:cart-direction:' + how.split('(')[0], '%s: %s.cart %r, direction %r' % (desc, how, c2.tolist(), ref.tolist()))
     return out
 
 
